@@ -36,12 +36,12 @@ func DeriveKey(seed uint64, label string, i int) Key {
 	}
 }
 
-func (k Key) Acc() sdk.AccAddress  { return sdk.AccAddress(k.Priv.PubKey().Address()) }
-func (k Key) Hex() common.Address  { return common.BytesToAddress(k.Priv.PubKey().Address()) }
-func (k Key) Bech32() string       { return k.Acc().String() }
-func (k Key) Val() sdk.ValAddress  { return sdk.ValAddress(k.Priv.PubKey().Address()) }
-func (k Key) String() string       { return k.Label }
-func (k Key) IsZero() bool         { return k.Priv == nil }
+func (k Key) Acc() sdk.AccAddress { return sdk.AccAddress(k.Priv.PubKey().Address()) }
+func (k Key) Hex() common.Address { return common.BytesToAddress(k.Priv.PubKey().Address()) }
+func (k Key) Bech32() string      { return k.Acc().String() }
+func (k Key) Val() sdk.ValAddress { return sdk.ValAddress(k.Priv.PubKey().Address()) }
+func (k Key) String() string      { return k.Label }
+func (k Key) IsZero() bool        { return k.Priv == nil }
 
 // ConsKey derives a deterministic ed25519 consensus key.
 func ConsKey(seed uint64, i int) cmted25519.PrivKey {
